@@ -100,7 +100,7 @@ CHECKS = {
             'same variables lives in the same store; 2 variables x 2 slots searched to closure, others depth '
             'bounded; each transition runs the real library by replaying the history; invariants: no '
             'two live nodes with equal (var,low,high) or equal function, reduced, ordered, parent '
-            'sets exact, slots agree with a truth-table model, == iff same root iff same function.',
+            'sets exact, slots agree with a truth-table model, == iff same root iff same function. A second family (crowd) holds N diagrams alive at once for every N up to 160 (quick) / 400 (thorough) in 5 shapes x 5 drop patterns x 2 re-creation routes, so that the weak parent sets become long, and checks root identity and the unique-triple invariant.',
             'State merging by (slot truth tables, multiset of live (var, truth table)); gc disabled '
             'during search with gc.collect as an operation plus a free-running pass at threshold 1. '
             'Address-dependent violations may not replay in every fresh process (noted in artefact).',
@@ -166,7 +166,7 @@ CHECKS.update({
             'printed formulas. Well-formed queries only, so TypeError is a violation too.', TECH_HIST, '7/C19'),
 })
 
-ADDENDUM = (' Beyond the core scope the quick tier also enumerates the input dimensions that six waves of '
+ADDENDUM = (' Beyond the core scope the quick tier also enumerates the input dimensions that seven waves of '
             'independently seeded changes attacked (DESIGN.md section 17): n-ary and/or, negation-rich and '
             'deeply nested formulas, 4-7 state structures, unusual state / node / atom types and names, '
             'aliasing of caller-owned objects, duplicates, and query-edit-query call histories.')
